@@ -13,7 +13,7 @@
    set iteration order, current directory); the correspondence over histories, invocation
    directories, PYTHONHASHSEED values and back-ends decides that per case. *)
 From Coq Require Import List String.
-From PC Require Import Comp.Syntax Comp.Compile Comp.EmitProofs Comp.WfPil Comp.CompileProofs Hist.Purity Hist.Renumber.
+From PC Require Import Base.Sexp Comp.Syntax Comp.Compile Comp.EmitProofs Comp.WfPil Comp.CompileProofs Hist.Purity Hist.Renumber Sys.System Sys.SysWfPil Sys.SysNames Sys.WfUnique Sys.SysFixed.
 
 Theorem C18_anon_name_injective : forall k k', anon_name k = anon_name k' -> k = k'.
 Proof. exact anon_name_injective. Qed.
@@ -35,3 +35,18 @@ Theorem C18_emit_renumber : forall (rho : string -> string) (D : string -> Prop)
   emit_comp (r_comp rho c) = map (map_line (ren_name (c_prefix c) rho)) (emit_comp c).
 Proof. exact emit_renumber. Qed.
 Print Assumptions C18_emit_renumber.
+
+(* "within one output all object names are unique", spelled out: a document that passes the well-formedness predicate
+   defines every sequence / super-sequence name once, every strand name once and every structure name once *)
+Theorem C18_wf_document_names_unique : forall ls, wf_pil ls = true ->
+  NoDup (seq_line_names ls) /\ NoDup (strand_line_names ls) /\ NoDup (struct_line_names ls).
+Proof. exact wf_pil_names_unique. Qed.
+Print Assumptions C18_wf_document_names_unique.
+
+(* ... hence in the output of every compile of a (nested) system, with any fixed-sequence file *)
+Theorem C18_system_output_names_unique : forall fs includes ctr basename args fixed lines ctr',
+  compile_top fs includes ctr basename args fixed = OK (lines, ctr') ->
+  (forall o, load_file fs includes 12 ctr basename args "" "." = OK (o, ctr') -> names_ok 12 o) ->
+  NoDup (seq_line_names lines) /\ NoDup (strand_line_names lines) /\ NoDup (struct_line_names lines).
+Proof. exact fixed_system_names_unique. Qed.
+Print Assumptions C18_system_output_names_unique.
